@@ -1,6 +1,6 @@
-\* all strings of length <= MaxLen over AlphabetNum
+\* all strings of length <= MaxLen over AlphabetStruct
 CONSTANTS
-    Alphabet <- AlphabetNum
+    Alphabet <- AlphabetStruct
     MaxLen = 5
     TagHexFloats = TRUE
 INIT Init
